@@ -194,6 +194,10 @@ def gen_fva_frame(rng, net, fluxes):
             tol = F(net.get("tolerance") or 1e-7)
             a, b = rng.choice([(-tol, tol), (tol, tol), (-tol, -tol)])
         fr[r["id"]] = [fs(a), fs(b)]
+    if rng.random() < 0.3 and len(fr) > 1:
+        # a frame computed for a reaction_list: rows for some reactions only (the summaries left-join it)
+        for rid in rng.sample(sorted(fr), rng.randrange(1, len(fr))):
+            del fr[rid]
     return fr
 
 
@@ -411,7 +415,7 @@ def run_group(group):
                 else:
                     ob["flux"] = fr(frame.at[t[1], "flux"])
                     ob["range"] = [fr(frame.at[t[1], "minimum"]), fr(frame.at[t[1], "maximum"])] \
-                        if "minimum" in frame.columns else None
+                        if "minimum" in frame.columns else "absent"
                     ob["n_rows"] = len(frame)
             except Exception as e:
                 ob["frame_error"] = "%s: %s" % (type(e).__name__, str(e)[:200])
@@ -494,8 +498,16 @@ def case_term(ob):
         o = C("ObsMet", mc[t[1]], [srow_term(r, rc, mc) for r in by_id(ob["frame"])],
               [prow(r) for r in by_id(ob["prod"])], [prow(r) for r in by_id(ob["cons"])])
     else:
-        o = C("ObsRxn", rc[t[1]], q(ob["flux"]),
-              Raw("None") if ob["range"] is None else Some((q(ob["range"][0]), q(ob["range"][1]))))
+        rg = ob["range"]
+        if rg == "absent":                       # no fva: no minimum / maximum columns
+            rgt = Raw("None")
+        elif rg[0] is None and rg[1] is None:    # NaN, NaN: the reaction has no row in the supplied frame
+            rgt = Some(Raw("None"))
+        elif not finite(*rg):
+            raise ValueError("non-finite range")
+        else:
+            rgt = Some(Some((q(rg[0]), q(rg[1]))))
+        o = C("ObsRxn", rc[t[1]], q(ob["flux"]), rgt)
     return coq(C("mkCase", q(ob["tolerance"]), eps, rxns, sol, obj, fva, not ob["render_errors"], o))
 
 
@@ -651,7 +663,8 @@ def main(argv=None):
             broken.append("model evaluation (coqc on generated cases) failed: " + faults[0][-600:])
 
     dist = {"target": {}, "solution": {}, "fva": {}, "skipped": {}, "exact_regime": 0, "steady_given": 0,
-            "rows_zeroed_below_tolerance": 0, "negative_factor_rows": 0, "nan_percent_sides": 0}
+            "rows_zeroed_below_tolerance": 0, "negative_factor_rows": 0, "nan_percent_sides": 0,
+            "partial_fva_frames": 0}
     nontrivial = set()
     n_eval = 0
     for ob in obs:
@@ -665,6 +678,8 @@ def main(argv=None):
             dist["exact_regime"] += 1
         if ob["solution"].get("steady"):
             dist["steady_given"] += 1
+        if ob["fva"]["kind"] == "frame" and len(ob["fva"]["frame"]) < len(ob["net"]["rxns"]):
+            dist["partial_fva_frames"] += 1
         rows = ob.get("frame") or []
         for r in rows:
             if r["factor"] is not None and F(r["factor"]) < 0:
